@@ -140,6 +140,13 @@ pub fn key_check(w: &mut World, node: usize, slot: usize) {
             let t = be.seal(Purp::Local, &c, &msg, &Foot::Unit, aad, None, false);
             rngsvc::end();
             let t = get!(t, "encrypt");
+            // with the same random stream the original must produce the very same token
+            rngsvc::begin(&RngSpec::Prng { seed: 0xC08 ^ slot as u64 });
+            let t0 = be.seal(Purp::Local, &h, &msg, &Foot::Unit, aad, None, false);
+            rngsvc::end();
+            if t0.ok().as_deref() != Some(t.as_str()) {
+                w.violate("C08", "clone-not-equivalent", bk, &opk, &detail, "original and clone encrypt the same message under the same randomness to different tokens".into());
+            }
             let r = be.unseal(Purp::Local, &h, &t, crate::backend::PayloadKind::Raw, crate::backend::FootKind::Unit, aad, &VSpec::None, false);
             let (cl, _) = get!(r, "decrypt");
             if cl != msg {
@@ -162,6 +169,20 @@ pub fn key_check(w: &mut World, node: usize, slot: usize) {
             let t = be.seal(Purp::Public, &c, &msg, &Foot::Unit, aad, None, false);
             rngsvc::end();
             let t = get!(t, "sign");
+            // original, clone and a re-parsed copy sign identically under the same random stream
+            // (all signature schemes here are deterministic functions of key, message and draws)
+            rngsvc::begin(&RngSpec::Prng { seed: 0xC08 ^ slot as u64 });
+            let t0 = be.seal(Purp::Public, &h, &msg, &Foot::Unit, aad, None, false);
+            rngsvc::end();
+            if t0.ok().as_deref() != Some(t.as_str()) {
+                w.violate("C08", "clone-not-equivalent", bk, &opk, &detail, "original and clone sign the same message under the same randomness differently".into());
+            }
+            rngsvc::begin(&RngSpec::Prng { seed: 0xC08 ^ slot as u64 });
+            let t1 = be.seal(Purp::Public, &again, &msg, &Foot::Unit, aad, None, false);
+            rngsvc::end();
+            if t1.ok().as_deref() != Some(t.as_str()) {
+                w.violate("C08", "reparsed-key-not-equivalent", bk, &opk, &detail, "a key re-parsed from its own bytes signs the same message under the same randomness differently".into());
+            }
             let r = be.unseal(Purp::Public, &pk, &t, crate::backend::PayloadKind::Raw, crate::backend::FootKind::Unit, aad, &VSpec::None, false);
             match r {
                 Out::Ok((cl, _)) if cl == msg => {}
